@@ -19,7 +19,7 @@ TECHNIQUE = ("exhaustive enumeration of dense value prefixes (TimeTicks 0..2^22 
              "power of two, the top 2^16 values) + Hypothesis over the full ranges; oracles are arithmetic laws "
              "(wrap modulo 2^32/2^64, clamp at 0, 10 ms per tick) and round trips through x690 and the independent codec")
 RULE = ("cases: ticks v (three conversion laws + encode/decode), timedelta of u microseconds (floor or nearest tick), "
-        "Counter/Counter64 built from any integer in -2^70..2^70, IpAddress a (32-bit), unsigned decode of content octets "
+        "Counter/Counter64 built from any integer in -2^70..2^70, IpAddress a (32-bit; strided over the whole range plus all 24^4 addresses whose octets are characters of [0-9a-fA-F.:]), unsigned decode of content octets "
         "with and without leading zero for Counter/Gauge/TimeTicks/Counter64, wire delivery through Client.get / "
         "PyWrapper.get; non-trivial = value within 2 of a power of two, or a tick count whose v/100.0*100 is not v in "
         "binary floating point, or a wrapped / clamped counter, or content with the top bit set; distinct = distinct "
@@ -289,11 +289,30 @@ def units(tier, seed):
     for sh in range(nip):
         us.append(Unit("ip-%d" % sh, enumeration_unit, cases=_IpCases(stride * nip, sh * stride + (seed % stride)),
                        label="ip-%d" % sh, exhaustive=False, sample_every=100000))
+    for sh in range(4):
+        us.append(Unit("ip-text-%d" % sh, enumeration_unit, cases=_IpTextCases(sh, 4), label="ip-text-%d" % sh, sample_every=50000))
     n = 1500 if tier == "quick" else 12000
     for sh in range(8 if tier == "quick" else 16):
         us.append(Unit("hyp-%d" % sh, hypothesis_unit, strategy=cases(), examples=n,
                        seed=shard_seed(seed, sh), label="hyp-%d" % sh))
     return us
+
+
+class _IpTextCases:
+    """addresses whose four octets are printable characters of numbers, dotted quads and IPv6 literals ("::12", "1.2.",
+    "ab::"): a decoder that guesses at the representation goes wrong exactly here.  24^4 = 331776 addresses, sharded."""
+
+    ALPHABET = b"0123456789abcdefABCDEF.:"
+
+    def __init__(self, k, m):
+        self.k, self.m = k, m
+
+    def __iter__(self):
+        import itertools as _it
+
+        for n, quad in enumerate(_it.product(self.ALPHABET, repeat=4)):
+            if n % self.m == self.k:
+                yield dict(k="ip", a=int.from_bytes(bytes(quad), "big"))
 
 
 class _IpCases:
